@@ -397,8 +397,8 @@ func RenderWithAST(mjmlContent string, opts ...RenderOption) (*RenderResult, err
 		globalAttrs.ProcessAttributesFromHead(headNode)
 	}
 
-	// Set the global attributes instance
-	globals.SetGlobalAttributes(globalAttrs)
+	// The definitions belong to this compilation: components reach them through their render options
+	renderOpts.GlobalAttributes = globalAttrs
 
 	// Create component tree
 	debug.DebugLog("mjml", "component-tree-start", "Creating component tree from AST")
@@ -497,7 +497,7 @@ func RenderFromAST(ast *MJMLNode, opts ...RenderOption) (string, error) {
 
 	// Load the document's own mj-attributes / mj-class definitions, exactly as RenderWithAST does;
 	// otherwise the result depends on whichever document was compiled before this call.
-	setGlobalAttributesFromAST(ast)
+	renderOpts.GlobalAttributes = globalAttributesFromAST(ast)
 
 	component, err := CreateComponent(ast, renderOpts)
 	if err != nil {
@@ -527,20 +527,20 @@ func NewFromAST(ast *MJMLNode, opts ...RenderOption) (Component, error) {
 		opt(renderOpts)
 	}
 
-	setGlobalAttributesFromAST(ast)
+	renderOpts.GlobalAttributes = globalAttributesFromAST(ast)
 
 	return CreateComponent(ast, renderOpts)
 }
 
-// setGlobalAttributesFromAST initialises the global attribute store from the head of the given document.
-func setGlobalAttributesFromAST(ast *MJMLNode) {
+// globalAttributesFromAST builds the attribute store (mj-attributes, mj-all, mj-class) from the head of the given document.
+func globalAttributesFromAST(ast *MJMLNode) *globals.GlobalAttributes {
 	globalAttrs := globals.NewGlobalAttributes()
 	if ast != nil {
 		if headNode := ast.FindFirstChild("mj-head"); headNode != nil {
 			globalAttrs.ProcessAttributesFromHead(headNode)
 		}
 	}
-	globals.SetGlobalAttributes(globalAttrs)
+	return globalAttrs
 }
 
 // normalizeGroupColumnClassOrder rewrites the mj-group column class ordering to match
@@ -700,13 +700,17 @@ func (c *MJMLComponent) collectCarouselCSSFromComponent(comp Component) {
 // hasCustomGlobalFonts checks if global attributes specify custom fonts
 func (c *MJMLComponent) hasCustomGlobalFonts() bool {
 	// Check if global attributes have specified font-family
-	globalFontFamily := globals.GetGlobalAttribute("mj-all", "font-family")
+	getGlobal := globals.GetGlobalAttribute
+	if c.RenderOpts != nil && c.RenderOpts.GlobalAttributes != nil {
+		getGlobal = c.RenderOpts.GlobalAttributes.GetGlobalAttribute
+	}
+	globalFontFamily := getGlobal("mj-all", "font-family")
 	if globalFontFamily != "" && globalFontFamily != fonts.DefaultFontStack {
 		return true
 	}
 
 	// Check if any text components have global font-family defined
-	textFontFamily := globals.GetGlobalAttribute("mj-text", "font-family")
+	textFontFamily := getGlobal("mj-text", "font-family")
 	if textFontFamily != "" && textFontFamily != fonts.DefaultFontStack {
 		return true
 	}
